@@ -447,13 +447,16 @@ func TestC01Library(t *testing.T) {
 		runtime.GC()
 		return 99
 	})
-	for i := 0; i < 20; i++ {
+	for i := 0; i < 280; i++ {
 		done := make(chan [3]int64)
 		go func() {
-			var x int
-			var arr [4]int64
-			r := Fill(&x, &arr)
-			done <- [3]int64{int64(r), int64(x), arr[3]}
+			// every stack depth: the stack is moved at different points of the diverted call
+			descend(i, func() {
+				var x int
+				var arr [4]int64
+				r := Fill(&x, &arr)
+				done <- [3]int64{int64(r), int64(x), arr[3]}
+			})
 		}()
 		r := <-done
 		rep.Eval(1)
